@@ -96,7 +96,7 @@ RembFloat(D, ex, m) ==
 
 IsNaN(x)     == x.e = 255 /\ x.f # 0
 IsNegative(x) == x.s = 1 /\ ~(x.e = 0 /\ x.f = 0) /\ ~IsNaN(x)
-FiniteNonNeg(x) == x.s = 0 /\ x.e < 255
+FiniteNonNeg(x) == (x.s = 0 /\ x.e < 255) \/ (x.s = 1 /\ x.e = 0 /\ x.f = 0)   \* -0.0 is not negative
 
 \* [ex, m]: the largest m * 2^ex <= x with m < 2^18 and minimal ex,
 \* saturating at 0x3FFFF * 2^63.  x finite, non-negative.
